@@ -19,6 +19,16 @@ pub const CLOCK_MONOTONIC: libc::clockid_t = libc::CLOCK_MONOTONIC_COARSE;
 /// tracked by a specific clock. The clock_id is one of libc::CLOCK_REALTIME,
 /// libc::CLOCK_MONOTONIC, etc.
 pub fn clock_gettime_safe(clock_id: libc::clockid_t) -> Result<libc::timespec, ShmError> {
+    #[cfg(aws_clock_bound_verif)]
+    match verif_rt::clock::gettime(clock_id) {
+        Some(Ok(ts)) => return Ok(ts),
+        Some(Err(e)) => {
+            errno::set_errno(errno::Errno(e));
+            return syserror!("clock_gettime");
+        }
+        None => (),
+    }
+
     // Allocate a buffer where the current time will be written to
     let mut buf: MaybeUninit<libc::timespec> = MaybeUninit::uninit();
 
